@@ -134,6 +134,20 @@ func cmdQuorum(args []string) int {
 				t.Progress[id] = &tracker.Progress{Match: acked[id], Next: acked[id] + 1, RecentActive: voted && v}
 			}
 		}
+		// voters that are being demoted (outgoing only) are staged in LearnersNext
+		// while the configuration is joint; they still count as voters
+		in0 := map[uint64]bool{}
+		for _, id := range c0 {
+			in0[id] = true
+		}
+		for i, id := range c1 {
+			if !in0[id] && (i+len(c0))%2 == 0 {
+				if t.LearnersNext == nil {
+					t.LearnersNext = map[uint64]struct{}{}
+				}
+				t.LearnersNext[id] = struct{}{}
+			}
+		}
 		const learner = 999983
 		t.Learners = map[uint64]struct{}{learner: {}}
 		t.Progress[learner] = &tracker.Progress{Match: 1 << 40, Next: 1<<40 + 1, IsLearner: true, RecentActive: true}
